@@ -36,6 +36,7 @@ def renderVal : Val → String
   | .st fs => "{" ++ ",".intercalate (renderFs fs) ++ "}"
   | .prop o v => "prop(" ++ opName o ++ "," ++ renderVal v ++ ")"
   | .en n => "en(" ++ toHex n ++ ")"
+  | .tup vs => "(" ++ ",".intercalate (renderList vs) ++ ")"
 def renderList : List Val → List String
   | [] => []
   | v :: vs => renderVal v :: renderList vs
@@ -101,7 +102,19 @@ def parseTy : Nat → List Char → Option (Ty × List Char)
          | _ :: rest' =>
            some (.en ((splitOnChar ';' body).filter (fun v => !v.isEmpty) |>.map (fun v => bytesOf (String.ofList v))), rest')
          | [] => none)
+      | none =>
+      match stripPrefix "tup(" cs with
+      | some r => (parseTys f r).map (fun (ts, r) => (.tup ts, r))
       | none => none
+def parseTys : Nat → List Char → Option (List Ty × List Char)
+  | 0, _ => none
+  | f + 1, cs =>
+    match cs with
+    | ')' :: r => some ([], r)
+    | _ =>
+      (parseTy f cs).bind (fun (t, r) =>
+        let r := match r with | ';' :: r' => r' | _ => r
+        (parseTys f r).map (fun (ts, r) => (t :: ts, r)))
 def parseFields : Nat → List Char → Option (List (Bytes × Ty) × List Char)
   | 0, _ => none
   | f + 1, cs =>
